@@ -209,10 +209,15 @@ def output(Nref=None, deme_mapping=None, generation_time=None):
         epochs, start_time, ancestors, proportions = deme_info[deme]
         if len(epochs) == 0:
             continue
-        while ancestors is not None and any(len(deme_info[a][0]) == 0 for a in ancestors):
+        # (Likewise an ancestor born at the very time this deme is born, as
+        # when a population is split again at once: the two are siblings.)
+        def passed_over(a):
+            return len(deme_info[a][0]) == 0 or\
+                    (start_time is not None and deme_info[a][1] == start_time)
+        while ancestors is not None and any(passed_over(a) for a in ancestors):
             contrib = {}
             for a, p in zip(ancestors, proportions):
-                if len(deme_info[a][0]) > 0:
+                if not passed_over(a):
                     contrib[a] = contrib.get(a, 0) + p
                 else:
                     for aa, pp in zip(deme_info[a][2], deme_info[a][3]):
